@@ -214,7 +214,7 @@ impl LocalFunction {
         IdHashSet<Local>,
         IdHashMap<Local, u32>,
     ) {
-        let used_set = self.used_locals();
+        let mut used_set = self.used_locals();
         let mut used_locals = used_set.iter().cloned().collect::<Vec<_>>();
         // Sort to ensure we assign local indexes deterministically, and
         // everything is distinct so we can use a faster unstable sort.
@@ -253,6 +253,10 @@ impl LocalFunction {
                 idx += 1;
             }
         }
+
+        // Arguments are always emitted, whether the body mentions them or not, so
+        // they count as used (e.g. their names belong in the name section).
+        used_set.extend(self.args.iter().cloned());
 
         // Use our type map to emit a compact representation of all locals now
         (
